@@ -262,3 +262,6 @@ impl PacketBuilder {
         }
     }
 }
+
+#[cfg(feature = "verif-hooks")]
+mod verif;
